@@ -179,13 +179,16 @@ def run(F, chk):
 
     # ---------------------------------------------------------------- R6.6
     R6 = chk.rule("R6.6", "a function that drops a type name when its last user goes counts the users of the type before it changes "
-                          "any entry of blockTypeIndices (sibling agreement of DeleteBlock and ReplaceBlock)")
+                          "any entry of blockTypeIndices, and does not change the table between that count and the drop (sibling "
+                          "agreement of DeleteBlock and ReplaceBlock)")
     for fn, bad in type_refcount_order(F):
         chk.instance(R6, ok=not bad, sample={"fn": fn["name"], "counts_before_changing_table": not bad})
         for n in bad[:1]:
             chk.violation("R6.6", "C06/R6.6:%s" % fn["name"], where(fn, n),
-                          "%s changes blockTypeIndices before it has counted the remaining users of the old type: the count is off by "
-                          "one and a type name still in use is dropped (or an unused one kept)" % fn["name"])
+                          "%s changes blockTypeIndices %s: the count does not describe the table at the moment the name is dropped, so a "
+                          "type name still in use is dropped (or an unused one kept)" % (
+                              fn["name"], "between counting the users of the old type and dropping its name" if n.get("short") == "erase"
+                              else "before it has counted the remaining users of the old type"))
     chk.floor(R6, 2)
 
     # ---------------------------------------------------------------- R6.5
@@ -263,8 +266,16 @@ def type_refcount_order(F):
                     tgt = n["l"]
                 elif n["k"] == "Call" and n.get("ext") and n.get("short") in ("erase", "push_back", "insert") and is_node(n.get("recv")):
                     tgt = n["recv"]
-                if tgt is not None and pairing.member_root(tgt, HDR)[0] == "blockTypeIndices" and ("D", "counted") not in st:
-                    self.bad.append(n)
+                if tgt is not None and pairing.member_root(tgt, HDR)[0] == "blockTypeIndices":
+                    if ("D", "counted") not in st:
+                        self.bad.append(n)
+                    elif ("D", "type-erased") not in st:
+                        return st | {("O", "table-changed-since-count")}  # the count no longer describes the table
+                if n["k"] == "Call" and n.get("ext") and n.get("short") == "erase" and is_node(n.get("recv")) and \
+                        pairing.member_root(n["recv"], HDR)[0] == "blockTypes":
+                    if ("O", "table-changed-since-count") in st:
+                        self.bad.append(n)
+                    return st | {("D", "type-erased")}
                 return st
 
         c = Cnt(F, fn)
